@@ -61,6 +61,10 @@ def gen_cases(rng, tier):
         band = 750 if curves else 125
         ts = rand_ts(rng)
         cases.append(("fill_px", [i % 2, 0, rng.choice([0, 0, 1]), w, h, 0, w, band, 0] + ts + ops))
+    # large cubics with lopsided control polygons (the flattening count must follow the larger deviation)
+    for i in range(48 if tier == "quick" else 600):
+        w, h = rng.choice([(200, 120), (160, 160), (120, 200)])
+        cases.append(("fill_px", [i % 2, 0, rng.choice([0, 0, 1]), w, h, 0, w, 750, 0] + list(IDENT) + lopsided_cubic_ops(rng, w, h) + [4]))
     # Pixmap::fill_rect (aliased fast path through Rect::round) with fractional edges
     for i in range(150 if tier == "quick" else 2000):
         w = h = 24
@@ -71,6 +75,16 @@ def gen_cases(rng, tier):
     for i in range(2 if tier == "quick" else 30):
         ops = rand_path_ops(rng, 8191 + rng.uniform(-6, 6), 10, 9, curves=(i % 2 == 1))
         cases.append(("fill_px", [i % 2, 0, 0, 8230, 20, 8160, 8225, 750 if i % 2 else 125, 0] + list(IDENT) + ops))
+    # tiled in both directions (8200 x 8200, four tiles): shapes in the top rows and across the horizontal seam of the same
+    # tile column; the window of checked columns lies in the left tile column or across the vertical seam
+    for i in range(1 if tier == "quick" else 6):
+        left = i % 2 == 0
+        cx = rng.uniform(12, 30) if left else 8191 + rng.uniform(-5, 5)
+        ops = []
+        for cy in (rng.uniform(4, 9), 8191 + rng.uniform(-4, 4)):
+            ops += poly_ops(rand_polygon(rng, cx, cy, rng.uniform(3, 8), grid=64.0), close=True, grid=64.0)
+        wx0 = 0 if left else 8160
+        cases.append(("fill_px", [i % 2, 0, 0, 8200, 8200, wx0, wx0 + 40, 125, 0] + list(IDENT) + ops))
     return cases
 
 
